@@ -18,6 +18,15 @@ def N(id, edits, props=None, note=""):
     return {"id": id, "kind": "neutral", "edits": edits, "props": props, "note": note}
 
 
+import json as _json
+import os as _os
+_SPEC = _json.load(open(_os.path.join(_os.path.dirname(_os.path.dirname(_os.path.abspath(__file__))), "spec", "constants.json")))
+_G1024 = int(_SPEC["integer"]["1024"]["g"], 16)
+_P1024 = int(_SPEC["integer"]["1024"]["p"], 16)
+_G1024_HEX = "0x%X" % _G1024
+_G1024_SQ = "0x%X" % pow(_G1024, 2, _P1024)
+_G1024_FULLORDER = "0x2"       # an element of Z_p^* outside the order-q subgroup
+
 SP = "spake2.py"
 GR = "groups.py"
 ED = "ed25519_basic.py"
@@ -228,6 +237,22 @@ CORPUS = [
       note="pow with a negative exponent computes the inverse (Python >= 3.8); same value on subgroup members"),
     N("c13-int-eq-via-to-bytes", [(GR, "        return self._group is other._group and self._e == other._e", "        return self._e == other._e")], props=["C13"]),
     N("c13-negate-by-coordinates", [(ED, "        return Element(scalarmult_element(self.XYTZ, L-1))", "        (X, Y, Z, T) = self.XYTZ\n        return Element(((-X) % Q, Y, Z, (-T) % Q))")], props=["C13", "C12"]),
+    # ------------------------------------------------------------------ C18 shipped parameter sets
+    B("c18-generator-squared", ["C18", "C03"], [(GR, "    g=" + _G1024_HEX + ",", "    g=" + _G1024_SQ + ",")],
+      note="another generator of the same subgroup: every test passes, interop with released versions is lost"),
+    B("c18-seed-override-1024", ["C18", "C14", "C03"], [("parameters/i1024.py", "Params1024 = _Params(I1024)", "Params1024 = _Params(I1024, M=b'm')")]),
+    B("c18-default-params-1024", ["C18"], [(SP, "from .parameters.ed25519 import ParamsEd25519\n\nDefaultParams = ParamsEd25519",
+                                            "from .parameters.ed25519 import ParamsEd25519\nfrom .parameters.i1024 import Params1024\n\nDefaultParams = Params1024")], tests="killed"),
+    B("c18-from-serialized-default-differs", ["C18"], [(SP, "    def from_serialized(klass, data, params=DefaultParams):",
+                                                        "    def from_serialized(klass, data, params=None):\n        from .parameters.i3072 import Params3072\n        params = params or Params3072")],
+      note="only the restore default differs"),
+    B("c18-S-seed-equals-M", ["C18"], [("params.py", 'def __init__(self, group, M=b"M", N=b"N", S=b"symmetric"):', 'def __init__(self, group, M=b"M", N=b"N", S=b"M"):')], tests="killed"),
+    B("c18-ctor-order-assert-removed", ["C18"], [(GR, "        assert pow(g, self.q, self.p) == 1\n", "")]),
+    B("c18-base-y-changed", ["C18"], [(ED, "By = 4 * inv(5)", "By = 4 * inv(7)")], tests="killed"),
+    B("c18-all-drops-3072", ["C18"], [("parameters/all.py", "from .i3072 import Params3072\n", "")]),
+    N("c18-literal-rewritten", [(GR, "    g=" + _G1024_HEX + ",", "    g=0x1*" + _G1024_HEX + ",")]),
+    N("c18-L-shift-form", [(ED, "L = 2**252 + 27742317777372353535851937790883648493", "L = (1 << 252) + 27742317777372353535851937790883648493")]),
+    N("c18-group-positional-args", [(GR, "I1024 = IntegerGroup(\n    p=", "I1024 = IntegerGroup(\n    "), ], note="first argument positional"),
     # ------------------------------------------------------------------ C16 isolation
     B("c16-blinding-cache-on-params", ["C16"], [(SP, """        pw_blinding = self.my_blinding().scalarmult(self.pw_scalar)
 """, """        cache = self.params.__dict__.setdefault("_blind_cache", {})
